@@ -52,9 +52,16 @@ Proof.
   - apply good_refl.
 Qed.
 
+Lemma note_park_good s ps : good (base s) (base (note_park nd s ps)).
+Proof.
+  unfold note_park. cbn [base]. split.
+  - eexists. split; [reflexivity|]. cbn. rewrite orb_false_r. split; auto. repeat constructor.
+  - eexists. split; [reflexivity|]. reflexivity.
+Qed.
+
 Lemma bstep_good s t s' : t <> TCancel -> bstep s t = Some s' -> good (base s) (base s').
 Proof.
-  intros Ht H. destruct t as [|k|k|]; [| | |contradiction]; cbn [BatchConc.bstep] in H.
+  intros Ht H. destruct t as [|k|k| |]; [| | |contradiction|]; cbn [BatchConc.bstep] in H.
   - destruct (mpc s).
     + destruct (adding s).
       * destruct (Nat.ltb (enq s - deq s) qcap); inv H. apply good_refl.
@@ -67,6 +74,7 @@ Proof.
     + inv H. apply task_step_good.
   - destruct (nth_error (ws s) k) as [[|i pc|]|]; try discriminate.
     destruct (closed s); inv H. apply good_refl.
+  - inv H. apply note_park_good.
 Qed.
 
 Lemma internal_not_cancel s t : internal_enabled o c nd items stopmode qcap s t = true -> t <> TCancel.
